@@ -165,7 +165,20 @@ func (k *Kubelet) register(kn *KNode) {
 		if kn.Flap {
 			k.s.Stat("fault.node.flapready")
 			k.s.AddTimer(actorKubelet, k.delay("kubelet.flapdelay", 5*time.Minute), "kubelet notready "+kn.Name, false, func() {
-				st.Mutate(gvkNode, key, func(o client.Object) { setNodeReady(o.(*corev1.Node), false, st.now()) })
+				// a kubelet that stops heart-beating is reported Ready=Unknown by the node-lifecycle controller; one that
+				// reports trouble itself says Ready=False
+				unknown := k.s.Ch.Pick("kubelet.flapunknown", 2) == 1
+				st.Mutate(gvkNode, key, func(o client.Object) {
+					n := o.(*corev1.Node)
+					setNodeReady(n, false, st.now())
+					if unknown {
+						for i := range n.Status.Conditions {
+							if n.Status.Conditions[i].Type == corev1.NodeReady {
+								n.Status.Conditions[i].Status = corev1.ConditionUnknown
+							}
+						}
+					}
+				})
 				k.s.AddTimer(actorKubelet, k.delay("kubelet.flapback", 5*time.Minute), "kubelet ready-again "+kn.Name, false, func() {
 					st.Mutate(gvkNode, key, func(o client.Object) { setNodeReady(o.(*corev1.Node), true, st.now()) })
 				})
